@@ -290,7 +290,7 @@ func resolve(address types.BroadcastAddr) *net.UDPAddr {
 		Zone: "",
 	}
 
-	copy(addr.IP, net.IPv4bcast)
+	copy(addr.IP, net.IPv4bcast.To4())
 
 	return &addr
 }
